@@ -15,9 +15,11 @@ use crate::{exclude_known, is_known, replay_cap};
 // ------------------------------------------------------------------------------------------
 // Specification (FORMAT.md): chunks of 128 KiB of plaintext, each followed by a 16-byte tag.
 // ------------------------------------------------------------------------------------------
-const SPEC_CHUNK: u64 = 131_072;
+// (with the verification-only cargo feature `mla_verif` the chunk is 4 bytes long; harnesses marked
+//  `scaled` run in that build, everything else at the production value)
+const SPEC_CHUNK: u64 = if cfg!(feature = "mla_verif") { 4 } else { 131_072 };
 const SPEC_TAG: u64 = 16;
-const SPEC_CTS: u64 = 131_088;
+const SPEC_CTS: u64 = SPEC_CHUNK + SPEC_TAG;
 
 /// `n` is the length of a stream the encryption writer can produce
 fn wf(n: u64) -> bool {
@@ -65,7 +67,20 @@ static mut AUTHENTIC_REST: bool = true;
 static mut LOADS: u32 = 0;
 static mut LAST_LOAD_CHUNK: u32 = 0;
 static mut LAST_LOAD_FROM: u64 = 0;
+/// ghost: the chunk now in the cache passed tag verification (set by the load contracts)
+static mut CACHE_VERIFIED: bool = false;
+static mut UNAUTH_LOADS: u32 = 0;
 
+/// every chunk's authenticity is an independent symbolic boolean (draw order a0..a3, rest)
+fn any_authenticity() {
+    unsafe {
+        AUTHENTIC[0] = kani::any();
+        AUTHENTIC[1] = kani::any();
+        AUTHENTIC[2] = kani::any();
+        AUTHENTIC[3] = kani::any();
+        AUTHENTIC_REST = kani::any();
+    }
+}
 fn authentic(i: u32) -> bool {
     unsafe {
         if (i as usize) < 4 {
@@ -97,7 +112,8 @@ fn load_spec_auth(q: u64, len: u64, auth: bool) -> LoadPost {
     if got == 0 {
         return LoadPost { inner_pos: q, cache_len: 0, ret: LoadRet::None };
     }
-    if !auth {
+    // a chunk that does not verify, or that is shorter than a tag, is rejected
+    if !auth || got < SPEC_TAG {
         return LoadPost { inner_pos: q + got, cache_len: 0, ret: LoadRet::ErrTag };
     }
     LoadPost { inner_pos: q + got, cache_len: got - SPEC_TAG, ret: LoadRet::Some }
@@ -134,9 +150,9 @@ fn contract_load_auth<T: ?Sized + Read + Seek>(
         LAST_LOAD_CHUNK = s.current_chunk_number;
         LAST_LOAD_FROM = q;
     }
-    // the well-formedness precondition of the real body: a non-empty read holds a whole tag
-    assert!(post.inner_pos == q || post.inner_pos - q >= SPEC_TAG, "load precondition: chunk shorter than its tag");
     s.chunk_cache.get_mut().clear();
+    s.chunk_cache.set_position(0);
+    unsafe { CACHE_VERIFIED = post.ret == LoadRet::Some };
     match post.ret {
         LoadRet::None => Ok(None),
         LoadRet::ErrTag => Err(Error::AuthenticatedDecryptionWrongTag),
@@ -144,6 +160,71 @@ fn contract_load_auth<T: ?Sized + Read + Seek>(
             s.chunk_cache = Cursor::new(vec_of_len(post.cache_len));
             Ok(Some(()))
         }
+    }
+}
+
+/// Stub standing for `EncryptionLayerInternal::load_in_cache_unauthenticated` (generic over the
+/// abstract forward-only source: position bookkeeping lives in ghost statics FS_LEN / FS_POS).
+fn contract_load_unauth<T: ?Sized + Read>(s: &mut EncryptionLayerInternal<T>) -> Result<Option<()>, Error> {
+    let (q, len) = unsafe { (FS_POS, FS_LEN) };
+    let post = load_spec_unauth(q, len);
+    unsafe {
+        FS_POS = post.inner_pos;
+        LOADS += 1;
+        UNAUTH_LOADS += 1;
+        LAST_LOAD_CHUNK = s.current_chunk_number;
+        LAST_LOAD_FROM = q;
+        CACHE_VERIFIED = false;
+    }
+    s.chunk_cache.get_mut().clear();
+    s.chunk_cache.set_position(0);
+    match post.ret {
+        LoadRet::Some => {
+            s.chunk_cache = Cursor::new(vec_of_len(post.cache_len));
+            Ok(Some(()))
+        }
+        _ => Ok(None),
+    }
+}
+/// same contract as `contract_load_auth` for the forward-only (fail-safe) source
+fn contract_load_auth_fs<T: ?Sized + Read>(s: &mut EncryptionLayerInternal<T>) -> Result<Option<()>, Error> {
+    let (q, len) = unsafe { (FS_POS, FS_LEN) };
+    let post = load_spec_auth(q, len, authentic(s.current_chunk_number));
+    unsafe {
+        FS_POS = post.inner_pos;
+        LOADS += 1;
+        LAST_LOAD_CHUNK = s.current_chunk_number;
+        LAST_LOAD_FROM = q;
+        CACHE_VERIFIED = post.ret == LoadRet::Some;
+    }
+    s.chunk_cache.get_mut().clear();
+    s.chunk_cache.set_position(0);
+    match post.ret {
+        LoadRet::None => Ok(None),
+        LoadRet::ErrTag => Err(Error::AuthenticatedDecryptionWrongTag),
+        LoadRet::Some => {
+            s.chunk_cache = Cursor::new(vec_of_len(post.cache_len));
+            Ok(Some(()))
+        }
+    }
+}
+/// ghost position/length of the forward-only source behind the fail-safe reader
+static mut FS_POS: u64 = 0;
+static mut FS_LEN: u64 = 0;
+/// forward-only source handle (all state in FS_POS / FS_LEN); `read` is never reached when both
+/// loads are stubbed
+struct FsSrc;
+impl Read for FsSrc {
+    fn read(&mut self, _buf: &mut [u8]) -> io::Result<usize> {
+        unreachable!("loads are stubbed")
+    }
+}
+impl<'a> LayerFailSafeReader<'a, FsSrc> for FsSrc {
+    fn into_inner(self) -> Option<Box<dyn 'a + LayerFailSafeReader<'a, FsSrc>>> {
+        None
+    }
+    fn into_raw(self: Box<Self>) -> FsSrc {
+        *self
     }
 }
 
@@ -381,4 +462,467 @@ fn h_enc_seek_current() {
         }
     }
     core::mem::forget(l);
+}
+
+// ------------------------------------------------------------------------------------------
+// H-ENC-LOAD-*: the REAL load_in_cache / load_in_cache_unauthenticated bodies against the load
+// contract (refinement) + totality on any remaining length + ideal-MAC protocol logic
+// (C02 short final chunk, C03 tag checked before exposure / nonce bound to index, C08)
+// ------------------------------------------------------------------------------------------
+/// ghost log of AesGcm256::new calls made by the code under test
+static mut GCM_NEW_CALLS: u32 = 0;
+static mut GCM_LAST_KEY: Key = [0u8; 32];
+static mut GCM_LAST_NONCE: Nonce = [0u8; 12];
+/// the 16 bytes the abstract source delivers as the stored tag of every chunk
+const TAGPAT: [u8; 16] = [0xA0, 0xA1, 0xA2, 0xA3, 0xA4, 0xA5, 0xA6, 0xA7, 0xA8, 0xA9, 0xAA, 0xAB, 0xAC, 0xAD, 0xAE, 0xAF];
+
+/// stub for `AesGcm256::new`: same struct through the loop-free model constructors + ghost log
+fn stub_gcm_new(key: &Key, nonce: &Nonce, _aad: &[u8]) -> Result<AesGcm256, Error> {
+    unsafe {
+        GCM_NEW_CALLS += 1;
+        GCM_LAST_KEY = *key;
+        GCM_LAST_NONCE = *nonce;
+    }
+    Ok(model_build(key, nonce))
+}
+/// stub for `AesGcm256::decrypt` — the IDEAL-MAC ASSUMPTION: the recomputed tag equals the stored
+/// one iff the chunk under this nonce counter is authentic (ciphertext and index original)
+fn stub_gcm_decrypt(c: &mut AesGcm256, _buffer: &mut [u8]) -> Tag {
+    // the chunk counter is bits 32..63 of the initial counter block (nonce || ctr || 00000001)
+    let ctr = (ghost_iv(c) >> 32) as u32;
+    let mut t = Tag::default();
+    t.as_mut_slice().copy_from_slice(&TAGPAT);
+    if !authentic(ctr) {
+        t[0] ^= 1;
+    }
+    t
+}
+/// stand-in for std's `default_read_to_end` driver: ONE read straight into the vector's spare
+/// capacity (valid for sources that hand out everything available at once, as `Abs` does); the
+/// last 16 bytes delivered are the stored tag pattern. No 128 KiB temporary, no zero-fill loop.
+fn model_rte<R: Read + ?Sized>(r: &mut R, buf: &mut Vec<u8>, _hint: Option<usize>) -> io::Result<usize> {
+    let len = buf.len();
+    let spare = buf.capacity() - len;
+    let n = {
+        let dst = unsafe { core::slice::from_raw_parts_mut(buf.as_mut_ptr().add(len), spare) };
+        r.read(dst)?
+    };
+    unsafe { buf.set_len(len + n) };
+    if n >= 16 {
+        let mut i = 0;
+        while i < 16 {
+            buf[len + n - 16 + i] = TAGPAT[i];
+            i += 1;
+        }
+    }
+    Ok(n)
+}
+
+/// stand-in for `Vec::resize` in the load bodies, which only ever shrink the vector there
+/// (asserted): avoids the symbolic-size reallocation path of the generic implementation
+fn shrink_only_resize<T: Clone, A: core::alloc::Allocator>(v: &mut Vec<T, A>, new_len: usize, _value: T) {
+    assert!(new_len <= v.len(), "resize in load_in_cache only shrinks");
+    v.truncate(new_len);
+}
+
+//@ props: C02 C03 C08 C13
+//@ scaled: yes
+//@ functions: layers::encrypt::EncryptionLayerInternal::load_in_cache (real body); layers::encrypt::build_nonce; subtle ct_eq on the 16-byte tag
+//@ bounds: SCALED build (feature mla_verif: chunk = 4 bytes, tag = 16 bytes unchanged); inner length n <= 3*20+64, any start position q <= n (so every remaining length 0..=3 chunks incl. 1..15 bytes), any chunk counter, arbitrary previous cache
+//@ stubs: AesGcm256::new -> same struct via model constructors + ghost log; AesGcm256::decrypt -> IDEAL MAC (tag matches iff chunk authentic); alloc::io::default_read_to_end -> single read into spare capacity; alloc::fmt::format; From<mla::Error> for io::Error
+//@ outside: that AES-GCM is a secure MAC; sources that split a chunk over several reads (std read_to_end loop is trusted)
+//@ replay: verif_replay_encrypt::enc_load q:u64 n:u64 ccn:u32 auth:bool
+#[kani::proof]
+#[kani::unwind(34)]
+#[kani::stub(alloc::fmt::format, nofmt)]
+#[kani::stub(<std::io::Error as std::convert::From<crate::errors::Error>>::from, cheap_from)]
+#[kani::stub(crate::crypto::aesgcm::AesGcm256::new, stub_gcm_new)]
+#[kani::stub(crate::crypto::aesgcm::AesGcm256::decrypt, stub_gcm_decrypt)]
+#[kani::stub(alloc::io::default_read_to_end, model_rte)]
+#[kani::stub(alloc::vec::Vec::resize, shrink_only_resize)]
+fn h_enc_load_auth_refines() {
+    let q: u64 = kani::any();
+    let n: u64 = kani::any();
+    kani::assume(n <= 3 * SPEC_CTS + 64 && q <= n);
+    let ccn: u32 = kani::any();
+    let auth: bool = kani::any();
+    unsafe {
+        if (ccn as usize) < 4 {
+            AUTHENTIC[ccn as usize] = auth;
+        } else {
+            AUTHENTIC_REST = auth;
+        }
+    }
+    let cl: u64 = kani::any();
+    let cp: u64 = kani::any();
+    kani::assume(cl <= SPEC_CHUNK && cp <= SPEC_CHUNK);
+    let mut l = mk_internal(Abs::new(n, q), ccn, cl, cp);
+    let rem = n - q;
+    kani::cover!(rem == 0, "nothing left");
+    kani::cover!(rem > 0 && rem < SPEC_TAG, "final chunk shorter than its tag");
+    kani::cover!(rem == SPEC_TAG, "empty final chunk");
+    kani::cover!(rem > SPEC_CTS, "more than one chunk left");
+    kani::cover!(!auth && rem >= SPEC_TAG, "chunk not authentic");
+    let r = l.load_in_cache();
+    let post = load_spec_auth(q, n, auth);
+    assert!(l.inner.pos == post.inner_pos, "load consumes min(remaining, chunk+tag) bytes of the inner stream");
+    match r {
+        Ok(None) => assert!(post.ret == LoadRet::None, "Ok(None) iff nothing remained"),
+        Ok(Some(())) => {
+            assert!(post.ret == LoadRet::Some, "a chunk is accepted only if its tag verified");
+            assert!(l.chunk_cache.get_ref().len() as u64 == post.cache_len, "cache holds the chunk without its tag");
+        }
+        Err(e) => {
+            core::mem::forget(e);
+            assert!(post.ret == LoadRet::ErrTag, "Err only for a chunk that does not authenticate");
+            assert!(l.chunk_cache.get_ref().is_empty(), "no byte of a rejected chunk is left in the cache");
+        }
+    }
+    assert!(l.chunk_cache.position() == 0, "cache cursor reset by every load");
+    unsafe {
+        assert!(GCM_NEW_CALLS == 1 && GCM_LAST_KEY == l.key, "one cipher per chunk, keyed with the archive key");
+        assert!(GCM_LAST_NONCE[..8] == l.nonce && GCM_LAST_NONCE[8..] == ccn.to_be_bytes(), "chunk nonce = archive nonce || big-endian chunk index");
+    }
+    core::mem::forget(l);
+}
+
+//@ props: C02 C05 C13
+//@ scaled: yes
+//@ functions: layers::encrypt::EncryptionLayerInternal::load_in_cache_unauthenticated (real body); AesGcm256::decrypt_unauthenticated over the model keystream
+//@ bounds: SCALED build (chunk = 4 bytes, tag 16); inner length n <= 3*20+64, any start q <= n (every remaining length incl. a cut inside data or inside a tag), any chunk counter, arbitrary previous cache
+//@ stubs: AesGcm256::new -> same struct via model constructors + ghost log; alloc::io::default_read_to_end -> single read into spare capacity; alloc::fmt::format; From<mla::Error> for io::Error
+//@ outside: sources that split a chunk over several reads (std read_to_end / io::copy loops are trusted)
+//@ replay: verif_replay_encrypt::enc_load_unauth q:u64 n:u64 ccn:u32
+#[kani::proof]
+#[kani::unwind(34)]
+#[kani::stub(alloc::fmt::format, nofmt)]
+#[kani::stub(<std::io::Error as std::convert::From<crate::errors::Error>>::from, cheap_from)]
+#[kani::stub(crate::crypto::aesgcm::AesGcm256::new, stub_gcm_new)]
+#[kani::stub(alloc::io::default_read_to_end, model_rte)]
+fn h_enc_load_unauth_refines() {
+    let q: u64 = kani::any();
+    let n: u64 = kani::any();
+    kani::assume(n <= 3 * SPEC_CTS + 64 && q <= n);
+    let ccn: u32 = kani::any();
+    let cl: u64 = kani::any();
+    let cp: u64 = kani::any();
+    kani::assume(cl <= SPEC_CHUNK && cp <= SPEC_CHUNK);
+    let mut l = mk_internal(Abs::new(n, q), ccn, cl, cp);
+    let rem = n - q;
+    kani::cover!(rem == 0, "nothing left");
+    kani::cover!(rem > 0 && rem < SPEC_CHUNK, "cut inside the data of the final chunk");
+    kani::cover!(rem > SPEC_CHUNK && rem < SPEC_CTS, "cut inside the tag of the final chunk");
+    kani::cover!(rem > SPEC_CTS, "more than one chunk left");
+    let r = l.load_in_cache_unauthenticated();
+    let post = load_spec_unauth(q, n);
+    assert!(l.inner.pos == post.inner_pos, "unauthenticated load consumes min(remaining, chunk) data bytes then up to 16 tag bytes");
+    match r {
+        Ok(None) => assert!(post.ret == LoadRet::None, "Ok(None) iff nothing remained"),
+        Ok(Some(())) => {
+            assert!(post.ret == LoadRet::Some);
+            assert!(l.chunk_cache.get_ref().len() as u64 == post.cache_len, "cache holds every data byte present");
+        }
+        Err(e) => {
+            core::mem::forget(e);
+            assert!(false, "unauthenticated load never fails on a readable source");
+        }
+    }
+    assert!(l.chunk_cache.position() == 0, "cache cursor reset by every load");
+    unsafe {
+        assert!(GCM_NEW_CALLS == 1, "one cipher per chunk");
+        assert!(GCM_LAST_NONCE[8..] == ccn.to_be_bytes(), "keystream of chunk i uses counter i");
+    }
+    core::mem::forget(l);
+}
+
+// ------------------------------------------------------------------------------------------
+// H-ENC-READ-STEP: one real read_internal from any *positioned* state (C03 no exposure,
+// C10/C11 sequential reading = cursor semantics, C05 completeness of the normal reader)
+// ------------------------------------------------------------------------------------------
+//@ props: C03 C10 C11 C01
+//@ functions: layers::encrypt::EncryptionLayerInternal::read_internal (real body incl. chunk renewal recursion)
+//@ bounds: production constants; every well-formed inner length n < 2^{NBITS}; every reader position 0 <= c <= len in both reachable representations; caller buffer length 0..=8; chunk authenticity symbolic
+//@ stubs: EncryptionLayerInternal::load_in_cache -> load contract (ideal MAC); alloc::fmt::format; From<mla::Error> for io::Error
+//@ outside: buffers > 8 bytes (the code only takes min(buffer, cache remainder)); byte values (std Cursor read is trusted)
+//@ replay: verif_replay_encrypt::enc_read n:u64 c:u64 by_read:bool blen:usize a0:bool a1:bool a2:bool a3:bool ar:bool
+#[kani::proof]
+#[kani::unwind(3)]
+#[kani::stub(alloc::fmt::format, nofmt)]
+#[kani::stub(<std::io::Error as std::convert::From<crate::errors::Error>>::from, cheap_from)]
+#[kani::stub(EncryptionLayerInternal::load_in_cache, contract_load_auth)]
+fn h_enc_read_step() {
+    let n = any_wf_len();
+    let big_l = plain_len(n);
+    let c: u64 = kani::any();
+    kani::assume(c <= big_l);
+    let at_end_of_prev: bool = kani::any();
+    kani::assume(!at_end_of_prev || (c % SPEC_CHUNK == 0 && c > 0));
+    let blen: usize = kani::any();
+    kani::assume(blen <= 8);
+    any_authenticity();
+    let mut l = if at_end_of_prev {
+        let ch = c / SPEC_CHUNK - 1;
+        mk_internal(Abs::new(n, core::cmp::min(n, (ch + 1) * SPEC_CTS)), ch as u32, SPEC_CHUNK, SPEC_CHUNK)
+    } else {
+        positioned_internal(n, c)
+    };
+    let next_chunk = (c / SPEC_CHUNK) as u32;
+    let needs_load = at_end_of_prev;
+    kani::cover!(needs_load && c == big_l, "renewal at the very end (exact multiple)");
+    kani::cover!(needs_load && c < big_l && !authentic(next_chunk), "renewal hits a chunk that does not authenticate");
+    kani::cover!(!needs_load && c == big_l, "at the end inside a partial last chunk");
+    kani::cover!(blen == 0, "empty buffer");
+    let mut buf = [0u8; 8];
+    let r = l.read_internal(&mut buf[..blen]);
+    let in_chunk_left = core::cmp::min(SPEC_CHUNK - c % SPEC_CHUNK, big_l - c);
+    match r {
+        Ok(k) => {
+            if needs_load && c < big_l {
+                assert!(authentic(next_chunk), "data of a chunk is returned only after its tag verified");
+                unsafe { assert!(CACHE_VERIFIED && LOADS == 1 && LAST_LOAD_CHUNK == next_chunk && LAST_LOAD_FROM == u64::from(next_chunk) * SPEC_CTS) };
+            }
+            assert!(k as u64 == core::cmp::min(blen as u64, in_chunk_left), "read returns min(buffer, rest of chunk, rest of stream): 0 only for an empty buffer or at the end");
+            let np = c + k as u64;
+            assert!(u64::from(l.current_chunk_number) * SPEC_CHUNK + l.chunk_cache.position() == np, "position advances by the count returned");
+        }
+        Err(e) => {
+            core::mem::forget(e);
+            assert!(needs_load && c < big_l && !authentic(next_chunk), "read fails only when the next chunk does not authenticate");
+            assert!(l.chunk_cache.get_ref().is_empty(), "nothing of the rejected chunk stays readable");
+        }
+    }
+    core::mem::forget(l);
+}
+
+// ------------------------------------------------------------------------------------------
+// H-ENC-FS-*: fail-safe (repair) reader of the encryption layer (C04, C05, C02)
+// ------------------------------------------------------------------------------------------
+fn mk_fs(mode: FailSafeReaderDecryptionMode, ccn: u32, cache_len: u64, cache_pos: u64) -> EncryptionLayerFailSafeReader<'static, FsSrc> {
+    let key = [2u8; 32];
+    let nonce = [3u8; NONCE_SIZE];
+    let mut c = Cursor::new(vec_of_len(cache_len));
+    c.set_position(cache_pos);
+    let inner: Box<dyn LayerFailSafeReader<'static, FsSrc>> = Box::new(FsSrc);
+    EncryptionLayerFailSafeReader {
+        internal: EncryptionLayerInternal {
+            inner,
+            cipher: model_build(&key, &build_nonce(nonce, ccn)),
+            key,
+            nonce,
+            chunk_cache: c,
+            current_chunk_number: ccn,
+        },
+        decryption_mode: mode,
+    }
+}
+
+/// every chunk 0..=i authentic
+fn prefix_authentic(i: u32) -> bool {
+    let mut j = 0u32;
+    let mut okk = true;
+    while j < 4 {
+        if j <= i && !authentic(j) {
+            okk = false;
+        }
+        j += 1;
+    }
+    if i >= 4 && !authentic(4) {
+        okk = false;
+    }
+    okk
+}
+
+//@ props: C04 C05 C02
+//@ functions: <layers::encrypt::EncryptionLayerFailSafeReader<R> as std::io::Read>::read (authenticated mode); layers::encrypt::EncryptionLayerInternal::read_internal
+//@ bounds: production constants; ANY inner length n < 2^{NBITS} (truncation anywhere, also inside a tag or 1..15 bytes after a chunk edge); two consecutive reads from a state holding verified chunk i with any cache offset; authenticity of every chunk symbolic; buffers 0..=8
+//@ stubs: load_in_cache -> load contract (ideal MAC); load_in_cache_unauthenticated -> load contract; alloc::fmt::format; From<mla::Error> for io::Error
+//@ outside: the repair block loop above the layer (HashMap-bound); byte values
+//@ known: F4
+//@ replay: verif_replay_encrypt::enc_fs_auth n:u64 i:u32 cp:u64 a0:bool a1:bool a2:bool a3:bool ar:bool b1:usize b2:usize
+#[kani::proof]
+#[kani::unwind(5)]
+#[kani::stub(alloc::fmt::format, nofmt)]
+#[kani::stub(<std::io::Error as std::convert::From<crate::errors::Error>>::from, cheap_from)]
+#[kani::stub(EncryptionLayerInternal::load_in_cache, contract_load_auth_fs)]
+#[kani::stub(EncryptionLayerInternal::load_in_cache_unauthenticated, contract_load_unauth)]
+fn h_enc_fs_read_auth() {
+    let n: u64 = kani::any();
+    kani::assume(n < N_BOUND);
+    if replay_cap!() {
+        kani::assume(n <= REPLAY_N_CAP);
+    }
+    // pre-state: chunk i is in the cache and was verified, like all chunks before it
+    let i: u32 = kani::any();
+    let cp: u64 = kani::any();
+    any_authenticity();
+    kani::assume(u64::from(i) * SPEC_CTS + SPEC_TAG <= n);
+    let avail_i = core::cmp::min(n - u64::from(i) * SPEC_CTS, SPEC_CTS);
+    let cl = avail_i - SPEC_TAG;
+    kani::assume(cp <= cl);
+    kani::assume(prefix_authentic(i));
+    unsafe {
+        FS_LEN = n;
+        FS_POS = u64::from(i) * SPEC_CTS + avail_i;
+        CACHE_VERIFIED = true;
+    }
+    let mut r = mk_fs(FailSafeReaderDecryptionMode::OnlyAuthenticatedData, i, cl, cp);
+    let b1: usize = kani::any();
+    let b2: usize = kani::any();
+    kani::assume(b1 >= 1 && b1 <= 8 && b2 >= 1 && b2 <= 8);
+    let next_rem = n - unsafe { FS_POS };
+    kani::cover!(cp == SPEC_CHUNK && next_rem > 0 && next_rem < SPEC_TAG, "next chunk shorter than its tag");
+    kani::cover!(cp == SPEC_CHUNK && next_rem >= SPEC_TAG && !authentic(i + 1), "next chunk complete but not authentic");
+    kani::cover!(cp == SPEC_CHUNK && next_rem >= SPEC_TAG && authentic(i + 1), "next chunk authentic");
+    kani::cover!(cp == cl && cl < SPEC_CHUNK, "end of a partial last chunk");
+    let mut buf = [0u8; 8];
+    // ---- first read
+    let r1 = r.read(&mut buf[..b1]);
+    let mut stopped = false;
+    match r1 {
+        Ok(k) => {
+            if k > 0 {
+                let ch = r.internal.current_chunk_number;
+                assert!(unsafe { CACHE_VERIFIED } && prefix_authentic(ch), "authenticated repair returns bytes only from chunks whose tag verified, contiguously from the start");
+            } else {
+                // end of what may be used: nothing left in this chunk and no next chunk that verifies
+                assert!(cp == cl, "Ok(0) with authenticated bytes still unread in the current chunk");
+                let full = cl == SPEC_CHUNK;
+                let next_ok = full && next_rem >= SPEC_TAG && authentic(i + 1) && next_rem > SPEC_TAG;
+                assert!(!next_ok, "Ok(0) although the next chunk is complete, authentic and non-empty");
+                stopped = true;
+            }
+        }
+        Err(e) => {
+            core::mem::forget(e);
+            assert!(false, "authenticated fail-safe read reports a rejected chunk as end of data, not as an error");
+        }
+    }
+    // ---- second read: once stopped, stays stopped (nothing decoded after a failed chunk is used)
+    let loads_before = unsafe { LOADS };
+    let r2 = r.read(&mut buf[..b2]);
+    match r2 {
+        Ok(k) => {
+            if stopped {
+                assert!(k == 0, "bytes returned after the stream was declared finished (data after a failed chunk is used)");
+                assert!(unsafe { LOADS } == loads_before, "no further chunk is loaded after the stop");
+            } else if k > 0 {
+                let ch = r.internal.current_chunk_number;
+                assert!(unsafe { CACHE_VERIFIED } && prefix_authentic(ch), "authenticated repair returns bytes only from verified chunks (second read)");
+            }
+        }
+        Err(e) => {
+            core::mem::forget(e);
+            assert!(false, "authenticated fail-safe read reports a rejected chunk as end of data, not as an error (second read)");
+        }
+    }
+    core::mem::forget(r);
+}
+
+//@ props: C04 C05 C02
+//@ functions: <layers::encrypt::EncryptionLayerFailSafeReader<R> as std::io::Read>::read (unauthenticated mode); layers::encrypt::EncryptionLayerInternal::read_internal_unauthenticated
+//@ bounds: production constants; ANY inner length n < 2^{NBITS}; one read from a state holding chunk i (any cache offset); buffers 1..=8
+//@ stubs: load_in_cache_unauthenticated -> load contract; alloc::fmt::format; From<mla::Error> for io::Error
+//@ outside: the repair block loop above the layer; byte values
+//@ replay: verif_replay_encrypt::enc_fs_unauth n:u64 i:u32 cp:u64 b1:usize
+#[kani::proof]
+#[kani::unwind(5)]
+#[kani::stub(alloc::fmt::format, nofmt)]
+#[kani::stub(<std::io::Error as std::convert::From<crate::errors::Error>>::from, cheap_from)]
+#[kani::stub(EncryptionLayerInternal::load_in_cache, contract_load_auth_fs)]
+#[kani::stub(EncryptionLayerInternal::load_in_cache_unauthenticated, contract_load_unauth)]
+fn h_enc_fs_read_unauth() {
+    let n: u64 = kani::any();
+    kani::assume(n < N_BOUND);
+    if replay_cap!() {
+        kani::assume(n <= REPLAY_N_CAP);
+    }
+    let i: u32 = kani::any();
+    let cp: u64 = kani::any();
+    kani::assume(u64::from(i) * SPEC_CTS < n);
+    // chunk i as the unauthenticated load leaves it: every data byte present, tag (or its rest) skipped
+    let avail_i = n - u64::from(i) * SPEC_CTS;
+    let cl = core::cmp::min(avail_i, SPEC_CHUNK);
+    kani::assume(cp <= cl);
+    unsafe {
+        FS_LEN = n;
+        FS_POS = u64::from(i) * SPEC_CTS + core::cmp::min(avail_i, SPEC_CTS);
+    }
+    let mut r = mk_fs(FailSafeReaderDecryptionMode::DataEvenUnauthenticated, i, cl, cp);
+    let b1: usize = kani::any();
+    kani::assume(b1 >= 1 && b1 <= 8);
+    let next_rem = n - unsafe { FS_POS };
+    kani::cover!(cp == SPEC_CHUNK && next_rem > 0 && next_rem < SPEC_CHUNK, "next chunk cut inside its data");
+    kani::cover!(cp == SPEC_CHUNK && next_rem == 0, "stream ends exactly after a tag");
+    kani::cover!(cp == cl && cl < SPEC_CHUNK, "end of a cut chunk");
+    let mut buf = [0u8; 8];
+    let r1 = r.read(&mut buf[..b1]);
+    match r1 {
+        Ok(k) => {
+            let left_here = cl - cp;
+            if left_here > 0 {
+                assert!(k as u64 == core::cmp::min(b1 as u64, left_here), "unauthenticated repair returns the data present in the current chunk");
+            } else if cl == SPEC_CHUNK && next_rem > 0 {
+                assert!(k as u64 == core::cmp::min(b1 as u64, core::cmp::min(next_rem, SPEC_CHUNK)), "unauthenticated repair continues with every data byte of the next chunk");
+                assert!(unsafe { UNAUTH_LOADS } == 1 && r.internal.current_chunk_number == i + 1);
+            } else {
+                assert!(k == 0, "Ok(0) only when no data byte is left in the stream");
+            }
+        }
+        Err(e) => {
+            core::mem::forget(e);
+            assert!(false, "unauthenticated fail-safe read never fails on a readable source");
+        }
+    }
+    core::mem::forget(r);
+}
+
+//@ props: C04
+//@ functions: layers::encrypt::EncryptionLayerFailSafeReader::new; layers::encrypt::EncryptionLayerInternal::new
+//@ bounds: production constants; any inner length n < 2^{NBITS}; authenticity of chunk 0 symbolic
+//@ stubs: load_in_cache / load_in_cache_unauthenticated -> load contracts; AesGcm256::new -> model constructors; alloc::fmt::format; From<mla::Error> for io::Error
+//@ expect_fail: F4
+//@ replay: verif_replay_encrypt::enc_fs_first n:u64 a0:bool
+#[kani::proof]
+#[kani::unwind(5)]
+#[kani::stub(alloc::fmt::format, nofmt)]
+#[kani::stub(<std::io::Error as std::convert::From<crate::errors::Error>>::from, cheap_from)]
+#[kani::stub(crate::crypto::aesgcm::AesGcm256::new, stub_gcm_new)]
+#[kani::stub(EncryptionLayerInternal::load_in_cache, contract_load_auth_fs)]
+#[kani::stub(EncryptionLayerInternal::load_in_cache_unauthenticated, contract_load_unauth)]
+fn h_enc_fs_first_chunk_auth() {
+    let n: u64 = kani::any();
+    kani::assume(n < N_BOUND && n > SPEC_TAG);
+    if replay_cap!() {
+        kani::assume(n <= REPLAY_N_CAP);
+    }
+    let a0: bool = kani::any();
+    unsafe {
+        AUTHENTIC[0] = a0;
+        FS_LEN = n;
+        FS_POS = 0;
+    }
+    let cfg = EncryptionReaderConfig {
+        private_keys: Vec::new(),
+        encrypt_parameters: Some(([2u8; 32], [3u8; NONCE_SIZE])),
+        failsafe_mode: FailSafeReaderDecryptionMode::OnlyAuthenticatedData,
+    };
+    let inner: Box<dyn LayerFailSafeReader<'static, FsSrc>> = Box::new(FsSrc);
+    let made = EncryptionLayerFailSafeReader::new(inner, &cfg);
+    let mut r = match made {
+        Ok(r) => r,
+        Err(e) => {
+            core::mem::forget(e);
+            kani::assume(false);
+            unreachable!()
+        }
+    };
+    let mut buf = [0u8; 4];
+    let r1 = r.read(&mut buf);
+    if let Ok(k) = r1 {
+        if k > 0 {
+            assert!(unsafe { CACHE_VERIFIED } && authentic(0), "authenticated repair exposes bytes of chunk 0 although its tag was never checked");
+        }
+    }
+    core::mem::forget(r1);
+    core::mem::forget(r);
 }
